@@ -181,6 +181,10 @@ impl FlowSetBody {
         match id {
             _ if id == TEMPLATE_ID => {
                 let (i, templates) = Templates::parse(i)?;
+                // A redefinition as the other kind replaces the definition of that id.
+                for template in templates.templates.iter() {
+                    parser.options_templates.remove(&template.template_id);
+                }
                 parser.templates.extend(
                     templates
                         .templates
@@ -191,6 +195,9 @@ impl FlowSetBody {
             }
             _ if id == OPTIONS_TEMPLATE_ID => {
                 let (i, options_templates) = OptionsTemplates::parse(i)?;
+                for template in options_templates.templates.iter() {
+                    parser.templates.remove(&template.template_id);
+                }
                 parser.options_templates.extend(
                     options_templates
                         .templates
